@@ -13,7 +13,7 @@ Clause → theorem (property text of C20 in /verif/properties.jsonl)
 |---|---|
 | a request acts as a user only if it carries the configured admin token verbatim (admin role) | `authenticates_iff` (first disjunct of `BearerAccepts`), `admin_token_verbatim` |
 | … or a bearer token that this instance's login issued for a configured user name and password (the role configured for that user) | `authenticates_iff`, `issued_genuine`, `session_identity_is_configured` (under the AEAD assumption `Unforgeable`), `issued_token_authenticates` |
-| … or arrives over the Unix socket from a system user mapped in the configuration (that role) | `authenticates_iff` (`PeerAccepts`, with the fall-through explicit), `authenticates_tcp` |
+| … or arrives over the Unix socket from a system user mapped in the configuration (that role) | `authenticates_iff` (`PeerAccepts`, with the fall-through explicit), `authenticates_tcp`, `unix_identity_ignores_gid`, `unix_identity_is_mapped_user` |
 | login succeeds exactly for a configured user with the matching password whose role permits login | `login_iff`, `login_identity` (full strength), `login_denied_iff`, `login_trichotomy` |
 | every other credential – unknown user, wrong password                         | `login_unknown_user`, `login_wrong_password` |
 | … truncated, bit-flipped or re-encoded token, token issued under another instance's key – authenticates nobody | `mutated_token_rejected`, `mutations_rejected`, `not_issued_rejected`, `cache_key_is_whole_token`, `injective_key_sound` / `noninjective_key_unsound` (a cache keyed by less than the whole token) |
@@ -206,6 +206,31 @@ theorem authenticates_iff (cfg : Config) (hcf : cfg.authType = .configFile) (st 
       rcases h' with ⟨w, hw, ha⟩ | ⟨_, hp⟩
       · exact absurd ha (hno w hw id role)
       · exact hp
+
+/-- The identity of a Unix-socket peer is the system user of its **effective uid** alone: the peer's
+gid (an input of the step, `PeerCred.gid`) never matters – two peers with the same user and different
+gids get the same answer, in every state, for every header. -/
+theorem unix_identity_ignores_gid (cfg : Config) (st : SessState) (h : Header) (user : String)
+    (g1 g2 : Nat) :
+    authenticate cfg st h (transportOf ⟨user, g1⟩) = authenticate cfg st h (transportOf ⟨user, g2⟩) :=
+  rfl
+
+/-- … and it is that user's mapping that decides: a peer authenticates (without an accepted bearer
+string) iff its user is mapped, as the role mapped for *that* user. -/
+theorem unix_identity_is_mapped_user (cfg : Config) (hcf : cfg.authType = .configFile)
+    (st : SessState) (hs : CacheSound cfg.key st) (c : PeerCred) (id : String) (role : Role) :
+    (authenticate cfg st .absent (transportOf c)).1 = .ok id role ↔
+      id = c.user ∧ ∃ rn, cfg.unixUsers.lookup c.user = some rn ∧ cfg.roles.lookup rn = some role := by
+  rw [authenticates_iff cfg hcf st hs]
+  constructor
+  · intro h
+    rcases h with ⟨w, hw, _⟩ | ⟨_, p, rn, hp, h1, h2, h3⟩
+    · cases hw
+    · simp only [transportOf, Transport.unix.injEq] at hp
+      subst hp
+      exact ⟨h3, rn, h1, h2⟩
+  · intro ⟨hid, rn, h1, h2⟩
+    exact Or.inr ⟨(fun w hw => by cases hw), c.user, rn, rfl, h1, h2, hid⟩
 
 /-- On TCP (no peer) only a bearer string authenticates. -/
 theorem authenticates_tcp (cfg : Config) (hcf : cfg.authType = .configFile) (st : SessState)
